@@ -392,6 +392,9 @@ def _fragment_chunk(spec, ctx):
         for prog, inputs in D.directed():
             for mi, metric_names in enumerate((("CHECKED",), ("BRANCH", "LINE", "CHECKED"))):
                 _fragment_program(env, ctx, prog, inputs, prog.name, metric_names, two_stmt_input=2 if mi == 0 else None)
+        for metric_names in (("CHECKED",), ("BRANCH", "LINE", "CHECKED")):
+            _rich_program(env, ctx, RICH_DIRECTED, RICH_DIRECTED_CALLS, "rich-directed", metric_names,
+                          ["try", "try-finally", "with", "match", "comprehension", "closure", "lambda", "loop-else", "break-continue", "generator"])
         return
     for i in range(spec["start"], spec["start"] + spec["n"]):
         prog = D.generate(spec["seed"], i)
@@ -481,61 +484,141 @@ def _assertion_chunk(spec, ctx):
 
 
 # ------------------------------------------------------------------------------------------------ workload R
+RICH_DIRECTED = '''
+class CM:
+    def __enter__(self):
+        return self
+
+    def __exit__(self, et, ev, tb):
+        return et is ValueError
+
+
+def d_except_as_match(a, l):
+    y = 0
+    try:
+        y = 1 // a
+    except ZeroDivisionError as exc:
+        match l:
+            case [p, q] if p < q:
+                y = 5
+    if not l:
+        y = 7
+    return y
+
+
+def d_with(a, l):
+    y = 1
+    with CM():
+        y = y + a
+        if a > 2:
+            raise ValueError(a)
+        y = y * 2
+    return y
+
+
+def d_comprehension(a, l):
+    r = [i * a for i in l if i != a]
+    s = {i % 3 for i in l}
+    d = {i: i + a for i in l}
+    return (sum(r), len(s), sorted(d.items()))
+
+
+def d_generator(a, l):
+    def gen(n):
+        k = 0
+        while k < n:
+            yield k + a
+            k += 1
+    total = 0
+    for v in gen(len(l)):
+        total += v
+    return total + sum(x for x in l if x > a)
+
+
+def d_closure(a, l):
+    def outer(k):
+        def inner(z):
+            return z + k + a
+        return inner
+    lam = lambda q: q * 2  # noqa: E731
+    return lam(outer(3)(len(l)))
+
+
+def d_try_finally(a, l):
+    y = 0
+    for i in l:
+        try:
+            y += 10 // (i - a)
+        except ZeroDivisionError:
+            y -= 1
+            continue
+        finally:
+            y += 1
+    else:
+        y *= 2
+    return y
+'''
+RICH_DIRECTED_CALLS = [(f, "typed", args) for f in ("d_except_as_match", "d_with", "d_comprehension", "d_generator", "d_closure", "d_try_finally")
+                       for args in ((0, [1, 2]), (0, []), (1, [2, 1]), (3, [3, 1, 4]))]
+
+
+def _rich_program(env, ctx, src, calls, origin, metric_names, features):
+    src_lines = src.splitlines()
+    modname = f"c09r_{env.counter}"
+    env.counter += 1
+    try:
+        ld = env.load(modname, src, metric_names)
+    except Exception as e:  # noqa: BLE001
+        ctx.anomaly(f"instrumentation-failed(C01):{type(e).__name__}")
+        return
+    feats = [f"rich-feature:{f}" for f in features if f in ("try", "try-finally", "with", "match", "comprehension", "closure", "lambda", "loop-else", "break-continue", "generator")]
+    try:
+        for fn, _kind, args in calls:
+            codes = [f"var_0 = {ld.alias}.{fn}({', '.join(repr(a) for a in args)})"]
+            case = {"program": origin, "function": fn, "args": repr(args), "metrics": ld.metrics, "source_of_function": _snippet(src, fn)}
+            tw_out, tw_lines, _ns = _twin_exec(ld, codes)
+            executed = ld.import_lines | tw_lines
+            res, cap = env.execute(ld, codes)
+            ctx.ok(cls=["rich:soundness-evaluated", f"metrics:{ld.metrics}", *feats] + (["rich:statement-raised"] if tw_out and tw_out[-1][0] == "exc" else []),
+                   distinct=f"rich|{origin}|{fn}|{args!r}|{ld.metrics}" if len(tw_lines) >= 3 else None)
+            if "exc" in cap:
+                kind = _raising_frame(cap["exc"][2])
+                ctx.witness(f"rich:slicer-raises:{cap['exc'][0]}:{kind}", f"compute_statement_checked_lines raised {cap['exc'][0]}: {cap['exc'][1]}; the executor thread dies, "
+                            f"result.timeout={res.timeout}; {cap['exc'][2][-300:]}", case)
+                continue
+            if res.timeout or "lines" not in cap:
+                ctx.anomaly("executor-returned-no-result")
+                continue
+            if ld.outcomes != tw_out:
+                ctx.anomaly("behaviour-differs(C01)-case-skipped")
+                continue
+            trace = res.execution_trace
+            if "LINE" in metric_names:
+                covered = set(ld.sp.lineids_to_linenos(trace.covered_line_ids))
+                if covered != executed & {m.line_number for m in ld.sp.existing_lines.values()}:
+                    ctx.anomaly("line-coverage-differs-from-twin(C02)-case-skipped")
+                    continue
+            checked = set(ld.sp.lineids_to_linenos(trace.checked_lines))
+            extra = checked - executed
+            if extra:
+                ln = min(extra, key=lambda v: (not isinstance(v, int), v if isinstance(v, int) else 0))
+                ctx.witness(f"rich:checked-line-not-executed:{_line_kind(src_lines, ln)}",
+                            f"{fn}{args!r}: lines {sorted(map(str, extra))} reported as checked but never executed; e.g. {ln}: {src_lines[ln - 1].strip() if isinstance(ln, int) else ''!r}", case)
+            for _spos, crit in sorted(cap.get("criteria", {}).items()):
+                _check_slice_in_trace(ctx, ld, trace, crit.trace_position, executed, case, "rich:")
+    finally:
+        env.unload(ld)
+
+
 def _rich_chunk(spec, ctx):
     from vlib.instr_family import ProgramCase
 
     env = _Env(ctx)
     for i in range(spec["start"], spec["start"] + spec["n"]):
         pc = ProgramCase(spec["seed"], i, ctx.scratch)
-        src = pc.prog["source"]
-        src_lines = src.splitlines()
         calls = [c for c in pc.calls if c[1] == "typed"]
         metric_names = ("BRANCH", "LINE", "CHECKED") if i % 2 else ("CHECKED",)
-        modname = f"c09r_{env.counter}"
-        env.counter += 1
-        try:
-            ld = env.load(modname, src, metric_names)
-        except Exception as e:  # noqa: BLE001
-            ctx.anomaly(f"instrumentation-failed(C01):{type(e).__name__}")
-            continue
-        feats = [f"rich-feature:{f}" for f in pc.prog["features"] if f in ("try", "try-finally", "with", "match", "comprehension", "closure", "lambda", "loop-else", "break-continue")]
-        try:
-            for fn, _kind, args in calls:
-                codes = [f"var_0 = {ld.alias}.{fn}({', '.join(repr(a) for a in args)})"]
-                case = {"program": [spec["seed"], i], "function": fn, "args": repr(args), "metrics": ld.metrics}
-                tw_out, tw_lines, _ns = _twin_exec(ld, codes)
-                executed = ld.import_lines | tw_lines
-                res, cap = env.execute(ld, codes)
-                ctx.ok(cls=["rich:soundness-evaluated", f"metrics:{ld.metrics}", *feats] + (["rich:statement-raised"] if tw_out and tw_out[-1][0] == "exc" else []),
-                       distinct=f"rich|{spec['seed']}|{i}|{fn}|{args!r}" if len(tw_lines) >= 3 else None)
-                if "exc" in cap:
-                    kind = _raising_frame(cap["exc"][2])
-                    ctx.witness(f"rich:slicer-raises:{cap['exc'][0]}:{kind}", f"compute_statement_checked_lines raised {cap['exc'][0]}: {cap['exc'][1]}; the executor thread dies, "
-                                f"result.timeout={res.timeout}; {cap['exc'][2][-300:]}", {**case, "source_of_function": _snippet(src, fn)})
-                    continue
-                if res.timeout or "lines" not in cap:
-                    ctx.anomaly("executor-returned-no-result")
-                    continue
-                if ld.outcomes != tw_out:
-                    ctx.anomaly("behaviour-differs(C01)-case-skipped")
-                    continue
-                trace = res.execution_trace
-                if "LINE" in metric_names:
-                    covered = set(ld.sp.lineids_to_linenos(trace.covered_line_ids))
-                    if covered != executed & {m.line_number for m in ld.sp.existing_lines.values()}:
-                        ctx.anomaly("line-coverage-differs-from-twin(C02)-case-skipped")
-                        continue
-                checked = set(ld.sp.lineids_to_linenos(trace.checked_lines))
-                extra = checked - executed
-                if extra:
-                    ln = min(extra, key=lambda v: (not isinstance(v, int), v if isinstance(v, int) else 0))
-                    ctx.witness(f"rich:checked-line-not-executed:{_line_kind(src_lines, ln)}",
-                                f"{fn}{args!r}: lines {sorted(map(str, extra))} reported as checked but never executed; e.g. {ln}: {src_lines[ln - 1].strip() if isinstance(ln, int) else ''!r}",
-                                {**case, "source_of_function": _snippet(src, fn)})
-                for _spos, crit in sorted(cap.get("criteria", {}).items()):
-                    _check_slice_in_trace(ctx, ld, trace, crit.trace_position, executed, {**case, "source_of_function": _snippet(src, fn)}, "rich:")
-        finally:
-            env.unload(ld)
+        _rich_program(env, ctx, pc.prog["source"], calls, [spec["seed"], i], metric_names, pc.prog["features"])
 
 
 def _raising_frame(tb_text):
@@ -575,6 +658,8 @@ def replay(w, ctx):
             prog = next(p for p, _ in D.directed() if p.name == origin)
         two = len(case.get("statements", [])) == 2
         _fragment_program(env, ctx, prog, [tuple(case["args"])], origin, tuple(case["metrics"].split("+")), two_stmt_input=0 if two else None)
+    elif case.get("program") == "rich-directed":
+        _rich_program(env, ctx, RICH_DIRECTED, [c for c in RICH_DIRECTED_CALLS if c[0] == case["function"]], "rich-directed", tuple(case["metrics"].split("+")), [])
     elif "program" in case:
         seed, idx = case["program"]
         _rich_chunk({"seed": seed, "start": idx, "n": 1}, ctx)
